@@ -48,6 +48,17 @@ fn canonical(cc: &ClipCell) -> Vec<[usize; 3]> {
     v
 }
 
+/// Volume scale of the box the cell lives in (absolute floor for comparisons of two decompositions).
+fn base_scale(cc: &ClipCell) -> f64 {
+    let (mut lo, mut hi) = (DVec3::splat(f64::INFINITY), DVec3::splat(f64::NEG_INFINITY));
+    for v in &cc.cell.vertices {
+        lo = lo.min(v.loc);
+        hi = hi.max(v.loc);
+    }
+    let d = hi - lo;
+    (d.x * d.y * d.z).abs().max(1e-300)
+}
+
 fn volume(cc: &ClipCell) -> f64 {
     cc.cell.compute_cell_integral::<(), VolumeIntegral>(()).volume
 }
@@ -248,6 +259,20 @@ fn explore_clip(e: &mut Eval, st: &State, case: &str, extra: &[(&str, String)], 
                     let v = volume(&rt);
                     if !((v - vref).abs() <= 1e-9 * scale + 1e-13) {
                         e.issue("volume-depends-on-type-state-history", case, format!("clip after with_faces().discard_faces(): volume {:e} vs {:e}", v, vref), rp());
+                    }
+                    // ... and the faces re-derived after that clip are the faces of the clipped cell, not of the cell
+                    // before it (fan decomposition over the stored face polygons = the decomposition without faces)
+                    match guarded(|| {
+                        let wf = rt.cell.clone().with_faces();
+                        let nv: usize = (0..wf.face_count()).map(|f| wf.face_vertex_count(f)).sum();
+                        (wf.compute_cell_integral::<(), VolumeIntegral>(()).volume, nv, wf.vertices.len())
+                    }) {
+                        Err(p) => e.issue("panic-in-with_faces-after-clip", case, format!("with_faces() after with_faces().discard_faces() and a clip: {} ({})", p.msg, p.site), rp()),
+                        Ok((vf, nv, nvert)) => {
+                            if !((vf - vref).abs() <= 1e-9 * scale + 1e-12 * base_scale(&rt)) || nv != 3 * nvert {
+                                e.issue("stale-faces-after-clip", case, format!("with_faces() after a round trip and a clip: volume over the face polygons {:e} vs {:e}; {} face-vertex incidences for {} vertices", vf, vref, nv, nvert), rp());
+                            }
+                        }
                     }
                 }
             }
